@@ -243,17 +243,19 @@ def is_worklist_closure(fn_node):
                   and c.func.attr in ("append", "put", "appendleft") and ast.unparse(c.func.value) == w]
         if not pushes:
             return False, "worklist %s is never refilled inside the loop" % w, None
-        # every push sits under a `not in P` test and P gets the pushed key (at push or at pop)
+        # every push sits under a `not in P` test and P gets the pushed key (at push or at pop); of the membership
+        # tests that guard a push, the visited collection is one that is also grown inside the loop
+        grown = {ast.unparse(c.func.value) for c in ast.walk(lp) if isinstance(c, ast.Call)
+                 and isinstance(c.func, ast.Attribute) and c.func.attr in ("add", "update", "append")}
         visited = None
         for push in pushes:
-            guard = _enclosing_not_in(lp, push)
-            if guard is None:
+            guards = _enclosing_not_in(lp, push)
+            if not guards:
                 return False, "push on %s is not guarded by a membership test on a visited collection" % w, push
-            visited = guard
-        marks = [c for c in ast.walk(lp) if isinstance(c, ast.Call) and isinstance(c.func, ast.Attribute)
-                 and c.func.attr == "add" and ast.unparse(c.func.value) == visited]
-        if not marks:
-            return False, "nothing is ever added to the visited collection %s inside the loop" % visited, pushes[0]
+            good = [g for g in guards if g in grown and g != w]
+            if not good:
+                return False, "nothing is ever added to the visited collection %s inside the loop" % guards[0], push
+            visited = good[0]
         return True, "", {"worklist": w, "visited": visited, "loop": lp}
     return False, "no worklist loop found", None
 
@@ -286,13 +288,14 @@ def _enclosing_not_in(loop, node):
     an enclosing `if x not in P:` (true branch), an enclosing `if x in P: ... else:` (else branch), and an earlier
     sibling `if x in P: continue / break / return` in any enclosing block of the loop."""
     path = _path_to(loop, node) + [node]
+    found = []
     for k, anc in enumerate(path[:-1]):
         child = path[k + 1]
         if isinstance(anc, ast.If):
             in_body = any(child is s for s in anc.body)
             p = _membership(anc.test, want_in=not in_body)      # body: need `not in`; orelse: need `in`
             if p is not None:
-                return p
+                found.append(p)
         for field in ("body", "orelse", "finalbody"):
             block = getattr(anc, field, None)
             if not isinstance(block, list) or not any(child is s for s in block):
@@ -303,8 +306,8 @@ def _enclosing_not_in(loop, node):
                 if isinstance(s, ast.If) and not s.orelse and _exits(s.body):
                     p = _membership(s.test, want_in=True)
                     if p is not None:
-                        return p
-    return None
+                        found.append(p)
+    return found[::-1]      # closest guard first
 
 
 def _path_to(root, node):
